@@ -12,10 +12,16 @@ def call_builtin(ex, name, self_v, args, kwargs, p, node, fr):
     S = ex.S
     ln = getattr(node, 'lineno', None)
     def raised(t): return (p.fork(), sx.Raised(VExc(t, where=ln)))
+    if isinstance(self_v, VAny):
+        return ex.lift_alts(p, [self_v], lambda q, vs: call_builtin(ex, name, vs[0], args, kwargs, q, node, fr))
+    if any(isinstance(a, VAny) for a in args) and name not in ('isinstance', 'type', 'id', 'print', 'repr'):
+        return ex.lift_alts(p, list(args), lambda q, vs: call_builtin(ex, name, self_v, vs, kwargs, q, node, fr))
     if name.startswith('<method>.'):
         return call_method(ex, name[9:], self_v, args, kwargs, p, node, fr)
     if name.startswith('math.'):
         return call_math(ex, name[5:], args, p, node)
+    if name.startswith('re.'):
+        return call_re(ex, name[3:], args, p, node)
     if name == 'isinstance':
         return [(p, VBool(isinstance_term(ex, args[0], args[1], p)))]
     if name == 'len':
@@ -32,17 +38,20 @@ def call_builtin(ex, name, self_v, args, kwargs, p, node, fr):
         raise sx.Unsupported(f'len of {v!r}')
     if name == 'float':
         v = args[0]
+        if isinstance(v, VSpec): return [(p, v)]
         if isinstance(v, VReal): return [(p, v)]
         if isinstance(v, (VInt, VBool)): return [(p, VReal(num(v)))]
         if isinstance(v, VStr):
             if v.lit is not None:
                 try: f = float(v.lit)
                 except ValueError: return [raised('ValueError')]
-                if f != f or f in (float('inf'), float('-inf')):
-                    return [(p, VReal(fresh(R, 'special'), special=v.lit.strip().lower()))]
+                if f != f: return [(p, VSpec('nan'))]
+                if f in (float('inf'), float('-inf')): return [(p, VSpec('inf' if f > 0 else '-inf'))]
                 return [(p, VReal(f))]
-            r = S.str_to_float(v)
-            return [(p.fork(S.str_is_float(v)), VReal(r)), (p.fork(z3.Not(S.str_is_float(v))), sx.Raised(VExc('ValueError', where=ln)))]
+            # float(str): a finite float, nan, +inf, -inf, or ValueError - decided by the text (uninterpreted FLOATKIND)
+            kind = S.app('FLOATKIND', [v.code], I)
+            return [(p.fork(kind == 0), VReal(S.str_to_float(v))), (p.fork(kind == 1), VSpec('nan')), (p.fork(kind == 2), VSpec('inf')), (p.fork(kind == 3), VSpec('-inf')),
+                    (p.fork(z3.Or(kind < 0, kind > 3)), sx.Raised(VExc('ValueError', where=ln)))]
         if isinstance(v, VUnk): return [(p, VReal(fresh(R, 'float'))), raised('TypeError'), raised('ValueError')]
         return [raised('TypeError')]
     if name == 'int':
@@ -53,6 +62,7 @@ def call_builtin(ex, name, self_v, args, kwargs, p, node, fr):
                 ok = S.str_is_int_base(v, args[1])
                 return [(p.fork(ok), VInt(r)), (p.fork(z3.Not(ok)), sx.Raised(VExc('ValueError', where=ln)))]
             return [raised('TypeError')]
+        if isinstance(v, VSpec): return [raised('ValueError' if v.kind == 'nan' else 'OverflowError')]
         if isinstance(v, VInt): return [(p, v)]
         if isinstance(v, VBool): return [(p, VInt(z3.If(v.t, 1, 0)))]
         if isinstance(v, VReal): return [(p, VInt(S.trunc(v.t)))]
@@ -67,6 +77,7 @@ def call_builtin(ex, name, self_v, args, kwargs, p, node, fr):
             if is_num(v): return [(p, VReal(S.opaque_real('round_nd', [num(v), num(args[1] if len(args) == 2 else kwargs['ndigits'])])))]
             if isinstance(v, VUnk): return [(p, VUnk('round')), raised('TypeError')]
             return [raised('TypeError')]
+        if isinstance(v, VSpec): return [raised('ValueError' if v.kind == 'nan' else 'OverflowError')]
         if isinstance(v, (VInt, VBool)): return [(p, VInt(v.t if isinstance(v, VInt) else z3.If(v.t, 1, 0)))]
         if isinstance(v, VReal):
             r = S.round_half_even(v.t)
@@ -75,6 +86,7 @@ def call_builtin(ex, name, self_v, args, kwargs, p, node, fr):
         return [raised('TypeError')]
     if name == 'abs':
         v = args[0]
+        if isinstance(v, VSpec): return [(p, VSpec('nan' if v.kind == 'nan' else 'inf'))]
         if isinstance(v, VInt): return [(p, VInt(z3.If(v.t >= 0, v.t, -v.t)))]
         if isinstance(v, VReal): return [(p, VReal(z3.If(v.t >= 0, v.t, -v.t)))]
         if isinstance(v, VBool): return [(p, VInt(z3.If(v.t, 1, 0)))]
@@ -89,6 +101,21 @@ def call_builtin(ex, name, self_v, args, kwargs, p, node, fr):
             args = items
             if not args: return [raised('ValueError')]
         if any(isinstance(a, VUnk) for a in args): return [(p, VUnk(name)), raised('TypeError')]
+        if any(isinstance(a, VSpec) for a in args) and all(is_num(a) or isinstance(a, VSpec) for a in args):
+            res = [(p, args[0])]
+            for nxt in args[1:]:
+                new = []
+                for q, cur in res:
+                    for q2, t in ex.compare(ast.Gt() if name == 'max' else ast.Lt(), nxt, cur, q, node):
+                        t = z3.simplify(t)
+                        if not z3.is_false(t):
+                            qa = q2.fork(None if z3.is_true(t) else t)
+                            if z3.is_true(t) or ex.feasible(qa.pc): new.append((qa, nxt))
+                        if not z3.is_true(t):
+                            qb = q2.fork(None if z3.is_false(t) else z3.Not(t))
+                            if z3.is_false(t) or ex.feasible(qb.pc): new.append((qb, cur))
+                res = new
+            return res
         if not all(is_num(a) for a in args): return [raised('TypeError')]
         # python returns the first maximal/minimal *object*: type of the result follows the winner
         if all(isinstance(a, VInt) for a in args):
@@ -117,6 +144,9 @@ def call_builtin(ex, name, self_v, args, kwargs, p, node, fr):
     if name == 'str':
         v = args[0] if args else VStr(lit='')
         if isinstance(v, VStr): return [(p, v)]
+        if isinstance(v, VSpec): return [(p, VStr(lit=v.kind))]
+        if isinstance(v, VBool):
+            return [(p.fork(v.t), VStr(lit='True')), (p.fork(z3.Not(v.t)), VStr(lit='False'))]
         if isinstance(v, VExc): return [(p, S.exc_message(v))]
         return [(p, S.mk_str_of(v, p))]
     if name == 'repr': return [(p, VStr(code=fresh(I, 'repr')))]
@@ -124,6 +154,8 @@ def call_builtin(ex, name, self_v, args, kwargs, p, node, fr):
     if name in ('all', 'any'):
         v = args[0]
         items = v.xs if isinstance(v, VGen) else ex.items_of(v, p)
+        if isinstance(v, VGen) and v.xs is None: return [(p, VBool(fresh(B, name)))]
+        if items is None and isinstance(v, VRef) and v.cls == 'list': return [(p, VBool(fresh(B, name)))]
         if items is None:
             if isinstance(v, VUnk): return [(p, VBool(fresh(B, name))), raised('Exception?')]
             raise sx.Unsupported(f'{name} of {v!r}')
@@ -197,7 +229,9 @@ def isinstance_term(ex, v, cls, p):
     if isinstance(v, VOpt):
         return z3.If(v.isnone, isinstance_term(ex, NONE, cls, p), isinstance_term(ex, v.inner, cls, p))
     if isinstance(v, VUnk): return fresh(B, 'isinstance')
-    tags = {VInt: {'int'}, VBool: {'int', 'bool'}, VReal: {'float'}, VStr: {'str'}, VTuple: {'tuple'}, VNone: set()}
+    if isinstance(v, VAny):
+        return z3.Or([z3.And(c, isinstance_term(ex, x, cls, p)) for c, x in v.alts])
+    tags = {VInt: {'int'}, VBool: {'int', 'bool'}, VReal: {'float'}, VSpec: {'float'}, VStr: {'str'}, VTuple: {'tuple'}, VNone: set()}
     for k, s in tags.items():
         if isinstance(v, k): return z3.BoolVal(bool(s & set(names)))
     if isinstance(v, VRef):
@@ -207,6 +241,23 @@ def isinstance_term(ex, v, cls, p):
     if isinstance(v, VExc):
         return z3.BoolVal(any(sx.exc_matches(v.typ, n) is True for n in names))
     return fresh(B, 'isinstance')
+
+
+def call_re(ex, fname, args, p, node):
+    """re.fullmatch / match / search / split / findall on (pattern, str): total; results are pure functions of the arguments"""
+    S = ex.S
+    ln = getattr(node, 'lineno', None)
+    if len(args) < 2 or not isinstance(args[1], VStr):
+        if len(args) >= 2 and isinstance(args[1], VUnk): return [(p, VUnk('re')), (p.fork(), sx.Raised(VExc('TypeError', where=ln)))]
+        return [(p, sx.Raised(VExc('TypeError', where=ln)))]
+    pat = args[0]
+    pid = z3.IntVal(lit_code(pat.lit)) if isinstance(pat, VStr) and pat.lit is not None else (pat.code if isinstance(pat, VStr) else z3.IntVal(lit_code(getattr(pat, 'name', 'pattern'))))
+    if fname in ('fullmatch', 'match', 'search'):
+        hit = S.app('RE_' + fname, [pid, args[1].code], B)
+        return [(p.fork(z3.Not(hit)), NONE), (p.fork(hit), VUnk('match object'))]
+    if fname in ('split', 'findall'):
+        q = p.fork(); return [(q, ex.new_symlist(q, 're_' + fname, min_len=1 if fname == 'split' else 0))]
+    return ex.opaque_call(f're.{fname}', p, node)
 
 
 def call_math(ex, fname, args, p, node):
@@ -268,6 +319,13 @@ def call_method(ex, m, o, args, kwargs, p, node, fr):
             if key is not None and key in cell.get('map', {}): return [(p, cell['map'][key])]
             if not cell.get('open') and key is not None: return [(p, args[1] if len(args) > 1 else NONE)]
             return [(p, VUnk('dict.get'))]
+    if isinstance(o, sx.VGlobal) and m in ('findall', 'split', 'fullmatch', 'match', 'search'):
+        return call_re(ex, m, [o] + list(args), p, node)
+    if isinstance(o, VStr) and m in ('split', 'rsplit') and not (o.lit is not None and all(isinstance(a, VStr) and a.lit is not None for a in args)):
+        if any(not isinstance(a, (VStr, VInt, VNone)) for a in args): return [(p, sx.Raised(VExc('TypeError', where=ln)))]
+        q = p.fork(); return [(q, ex.new_symlist(q, 'split', min_len=1))]
+    if isinstance(o, VStr) and m == 'join':
+        return [(p, VStr(code=fresh(I, 'joined')))]
     if isinstance(o, VStr):
         return S.str_method(o, m, args, p, node)
     if isinstance(o, VTuple) and m in ('index', 'count'):
